@@ -65,12 +65,21 @@ func c27BuildPlugin(dir, version string) []byte {
 	return b
 }
 
+// c27LibMarker: content of lib/marker.txt inside every plugin archive (must equal the constant in cmd/crashplugin).
+const c27LibMarker = "octosql-crashplugin-lib v1\n"
+
 func c27TarGz(fileName string, content []byte) []byte {
 	var buf bytes.Buffer
 	gz, _ := gzip.NewWriterLevel(&buf, gzip.BestSpeed)
 	tw := tar.NewWriter(gz)
 	tw.WriteHeader(&tar.Header{Name: fileName, Mode: 0o755, Size: int64(len(content)), Typeflag: tar.TypeReg})
 	tw.Write(content)
+	// the plugin also ships a sub-directory with a file it needs at start-up (crashplugin refuses to run without
+	// it), so "complete and runnable" covers more than the executable
+	lib := []byte(c27LibMarker)
+	tw.WriteHeader(&tar.Header{Name: "lib/", Mode: 0o755, Typeflag: tar.TypeDir})
+	tw.WriteHeader(&tar.Header{Name: "lib/marker.txt", Mode: 0o644, Size: int64(len(lib)), Typeflag: tar.TypeReg})
+	tw.Write(lib)
 	tw.Close()
 	gz.Close()
 	return buf.Bytes()
